@@ -41,6 +41,7 @@ type Program struct {
 	LoadSeconds   float64
 	SourcePkgs    []string
 	Fingerprint   string
+	qcache        *queryCache
 }
 
 const ToolchainBin = "/root/go/pkg/mod/golang.org/toolchain@v0.0.1-go1.26.2.linux-amd64/bin"
@@ -97,7 +98,7 @@ func Load(spec LoadSpec) (*Program, error) {
 		return nil, fmt.Errorf("package errors:\n  %s", strings.Join(errs, "\n  "))
 	}
 	prog, spkgs := ssautil.Packages(pkgs, ssa.InstantiateGenerics|ssa.SanityCheckFunctions&0)
-	P := &Program{Prog: prog, byPath: map[string]*ssa.Package{}, infos: map[*ssa.Function]*fnInfo{}, repl: map[string]*ssa.Function{}}
+	P := &Program{Prog: prog, byPath: map[string]*ssa.Package{}, infos: map[*ssa.Function]*fnInfo{}, repl: map[string]*ssa.Function{}, qcache: &queryCache{}}
 	for i, sp := range spkgs {
 		if sp == nil {
 			return nil, fmt.Errorf("no SSA package for %s", pkgs[i].PkgPath)
